@@ -28,6 +28,20 @@ def extra_programs():
     main = {"nodes": [inp(A("i32", [3])), nd("ArrayToVector", [1]), nd("CreateTuple", []), {"op": "Iterate", "deps": [3, 2], "gdeps": [1]},
                       nd("TupleGet", [4], i=1), nd("VectorToArray", [5])], "out": 6}
     ps.append(("iterate_mul", {"graphs": [body, main], "main": 2}, 1))
+    # graphs with randomness of their own that are inlined more than once: a called graph with a Random node (the source
+    # side), two private joins (their protocol graphs draw random permutations), two sorts
+    callee = {"nodes": [inp(i32), nd("Random", [], t=i32), nd("Add", [1, 2])], "out": 3}
+    main = {"nodes": [inp(i32), {"op": "Call", "deps": [1], "gdeps": [1]}, {"op": "Call", "deps": [2], "gdeps": [1]}, nd("Add", [2, 3])], "out": 4}
+    ps.append(("call_random_twice", {"graphs": [callee, main], "main": 2}, 1))
+    from . import wide3
+    import random as _r
+    rng = _r.Random(5)
+    ta, _ = wide3.table(rng, 3, "u8", "pa", list(range(1, 9)))
+    tb, _ = wide3.table(rng, 2, "u8", "pb", list(range(1, 9)))
+    tc, _ = wide3.table(rng, 2, "u8", "pc", list(range(1, 9)))
+    ps.append(("join_twice", prog([inp(ta), inp(tb), inp(tc), nd("Join", [1, 2], jt="Inner", hd=[["k", "k"]]), nd("Join", [4, 3], jt="Inner", hd=[["k", "k"]])]), 3))
+    ps.append(("sort_twice", prog([inp(A("b", [3, 2])), inp(A("i32", [3])), nd("CreateNamedTuple", [1, 2], nm=["k", "v"]), nd("Sort", [3], key="k"),
+                                   nd("NamedTupleGet", [4], key="v"), nd("CreateNamedTuple", [1, 5], nm=["k", "v"]), nd("Sort", [6], key="k")]), 2))
     return ps
 
 
@@ -52,7 +66,7 @@ def run(chk):
         lib.write_ndjson(jp, pending)
         lib.harness(["stage-trace", jp, tp], timeout=3000)
         trace = lib.read_ndjson(tp)
-        res = lib.tlc("PipelineTrace", "MC_PipelineTrace.cfg", env={"TRACE": tp}, workers=1, deque=True, timeout=1500, coverage=False)
+        res = lib.tlc("PipelineTrace", "MC_PipelineTrace.cfg", env={"TRACE": tp}, workers=1, deque=True, timeout=1500, coverage=False, xss="1g")
         chk.add_tlc(res, "pipeline_trace")
         if rounds == 1:
             chk.note("stage_events_validated", len(trace))
